@@ -352,4 +352,23 @@ CHECKS = {
              "of cook_check, the unlocked check-then-act of the loader "
              "registry and of utils.module_cache) and cross-process equality "
              "are not decided by any rule here."),
+    "C08": dict(
+        technique="path rules on RepeatDict.__call__ (iterator identity), "
+                  "emission-tree skeleton of the repeat loop, def-use of "
+                  "repeat attributes, linear normalisation of the closed "
+                  "forms that are linear in index/length",
+        text="Decides the identity all position arithmetic rests on (the "
+             "iterator the loop consumes is the object the RepeatItem "
+             "watches; any iterable is materialised once, None repeats "
+             "nothing), the emitted loop skeleton (unpacking into iterator "
+             "and per-node counter, names pre-bound to None, counter "
+             "decremented after the body, separator appended only while "
+             "positive, separator = captured indentation, none for tal: "
+             "elements), that every repeat attribute reads only index/"
+             "length, and that index, number, start, end, odd/even/parity "
+             "normalise to their documented closed forms (linear "
+             "arithmetic, decided symbolically).",
+        note="The digit loops of letter/Letter/roman/Roman, the boundaries "
+             "26 and 3999 and CPython's list_iterator.__length_hint__ are "
+             "value-level and NOT decided."),
 }
